@@ -1,5 +1,6 @@
 import Babylon.Core.Proto
 import Babylon.Wire.Codec
+import Babylon.Wire.Pb
 /-! Line-protocol driver for the serialization model (property C11).
 
     usage: drv_C11 [debug|ndebug]
@@ -9,6 +10,7 @@ import Babylon.Wire.Codec
     encu <id> <value>                     like enc, the bytes printed sorted (types with unordered containers)
     enc2 <id> <value1> <value2>           serialize value1, mutate the same object to value2,
                                           serialize again (the model has no caches: = enc value2)
+    pb   <id> <value>                     protobuf's own encoding of a struct of the documented-compatible kinds
     rt   <id> <value> <pres>              serialize, then parse through <pres> into a fresh object
     dec  <id> <hex|-> <pres>              parse into a fresh object              -> ok <value> | fail | noret
     deci <id> <value> <hex|-> <pres>      parse into an object holding <value>   -> ok <value> | fail | noret
@@ -210,6 +212,12 @@ def step (s : DSt) (line : String) : DSt × String :=
     match s.types.lookup id with
     | some t => match runP (valP t) v with
       | some x => (s, s!"ok {size t x} {hexOrDash (encode t x)}")
+      | none => (s, "bad-value")
+    | none => (s, "bad-id")
+  | ["pb", id, v] =>
+    match s.types.lookup id with
+    | some t => match runP (valP t) v with
+      | some x => (s, if compatTy t then s!"ok {hexOrDash (pbEncode t x)}" else "unsupported")
       | none => (s, "bad-value")
     | none => (s, "bad-id")
   | ["encu", id, v] =>
